@@ -389,6 +389,71 @@ theorem interleaving_irrelevant (calls : List (Params × List Outcome)) (sched :
   have := iterate_stepInv (cfg p) 0 outs [] (sched.count j) hfair
   simp [this, retry]
 
+/-! ### what an attempt's product *says* is irrelevant — only its class counts, whatever happened before
+
+`retryRaw p rs` runs `retry` on products that are classified by the model itself (`Raw.kind`: the `isinstance` facts in the
+order of the `except` clauses, `status_code == 408`, truthiness of `"success"`).  `what` stands for the message / the
+Elasticsearch error type / the response body of an error, resp. everything else in a returned value. -/
+
+/-- which raised objects are retryable, in terms of their `isinstance` facts: socket time-outs and connection errors
+    (first clause), API errors iff their status is 408 (second clause, **before** the `ConnectionTimeout` clause),
+    connection time-outs that are not API errors; nothing else — and all of them only with `retry-on-timeout` -/
+theorem raw_exception_retryable_iff (c : Cfg) (f : Facts) (status what : Nat) :
+    Retryable c (Raw.exc f status what).kind ↔
+      (c.retryOnTimeout = true ∧ (f.sockTimeout = true ∨ f.connError = true ∨
+        (f.apiError = true ∧ status = 408) ∨ (f.apiError = false ∧ f.connTimeout = true))) := by
+  rcases f with ⟨a, b, c', d, e⟩
+  cases a <;> cases b <;> cases c' <;> cases d <;> cases e <;> by_cases hs : status = 408 <;>
+    simp [Raw.kind, Retryable, hs]
+
+/-- a returned value is retryable iff it is a dict whose `"success"` is present and falsy, and `retry-on-error` is on -/
+theorem raw_value_retryable_iff (c : Cfg) (isDict : Bool) (success : Option Bool) (what : Nat) :
+    Retryable c (Raw.value isDict success what).kind ↔
+      (c.retryOnError = true ∧ isDict = true ∧ success = some false) := by
+  cases isDict <;> rcases success with _ | b <;> try cases b
+  all_goals simp [Raw.kind, Retryable]
+
+theorem kind_withWhat (r : Raw) (w : Nat) : (r.withWhat w).kind = r.kind := by
+  cases r with
+  | value d s w' => cases d <;> rcases s with _ | b <;> rfl
+  | exc f st w' => rfl
+
+/-- **what the products say is irrelevant**: re-word every product in any way (the new wording may depend on the
+    position in the script, hence on the whole history) — the run is the same: same attempts, same pauses, the result is
+    the same attempt's product -/
+theorem what_it_says_is_irrelevant (p : Params) (rs : List (Raw × Nat)) (g : Raw × Nat → Nat) :
+    retryRaw p (rs.map (fun r => (r.1.withWhat (g r), r.2))) = retryRaw p rs := by
+  simp [retryRaw, rawOutcomes, List.map_map, Function.comp_def, kind_withWhat]
+
+/-- an API error whose status is not 408 (and that is neither a socket time-out nor a connection error) ends the
+    operation at once with that very error — **whatever it says** (`what`: 400 / 409 `resource_already_exists_exception`
+    included) and **whatever the earlier attempts produced** (the prefix of `rs` is arbitrary: time-outs that were
+    retried, unsuccessful results …) -/
+theorem api_error_propagates_whatever_it_says (p : Params) (rs : List (Raw × Nat)) (i : Nat)
+    (f : Facts) (status what tag : Nat)
+    (hr : rs[i]? = some (.exc f status what, tag))
+    (hf : f.sockTimeout = false ∧ f.connError = false ∧ f.apiError = true) (hs : status ≠ 408)
+    (hi : i < (retryRaw p rs).calls) :
+    (retryRaw p rs).calls = i + 1 ∧ (retryRaw p rs).res = .raised ⟨.apiOther, tag⟩ := by
+  have hk : (Raw.exc f status what).kind = .apiOther := by
+    simp [Raw.kind, hf.1, hf.2.1, hf.2.2, hs]
+  have ho : (rawOutcomes rs)[i]? = some ⟨.apiOther, tag⟩ := by
+    simp [rawOutcomes, hr, hk]
+  exact non_retryable_immediate p _ i _ ho hi (Or.inl rfl)
+
+/-- **the result is never made up**: whatever is returned or raised is the product of the last attempt that was made
+    (its tag = the identity of that object), returned if it is a value and raised if it is an exception -/
+theorem result_is_an_attempts_product (p : Params) (rs : List (Raw × Nat)) (o : Outcome)
+    (h : (retryRaw p rs).res = .returned o ∨ (retryRaw p rs).res = .raised o) :
+    ∃ r, rs[(retryRaw p rs).calls - 1]? = some (r, o.tag) ∧ r.kind = o.kind ∧ (retryRaw p rs).res = verbatim o := by
+  have h3 := result_is_last_attempts p (rawOutcomes rs) o h
+  obtain ⟨_, h2, h4⟩ := h3
+  simp only [rawOutcomes, List.getElem?_map, Option.map_eq_some_iff] at h2
+  obtain ⟨a, ha, hao⟩ := h2
+  refine ⟨a.1, ?_, ?_, h4⟩
+  · rw [← hao]; simpa [retryRaw, rawOutcomes] using ha
+  · rw [← hao]
+
 /-! ### non-vacuity: concrete inputs meeting the hypotheses (tests, labelled as tests) -/
 
 -- the unit-test scenario "mixed timeout and application errors", retries = 5
@@ -426,6 +491,17 @@ example : (runSchedule [0, 1, 0, 1, 0, 1, 0, 1]
       [startInv ⟨false, none, some 3, none, some 1, none⟩ [⟨.connTimeout, 0⟩, ⟨.connTimeout, 1⟩, ⟨.connTimeout, 2⟩, ⟨.connTimeout, 3⟩],
        startInv ⟨false, none, none, none, none, none⟩ [⟨.dictOk, 0⟩]]).map (·.res)
     = [some (.raised ⟨.connTimeout, 3⟩), some (.returned ⟨.dictOk, 0⟩)] := by decide +kernel
+
+-- a connection time-out that is retried, then HTTP 400 saying 17 (e.g. resource_already_exists_exception): raised as it is
+example : retryRaw ⟨false, none, some 2, none, none, none⟩
+    [(.exc ⟨false, false, false, true, true⟩ 0 3, 0), (.exc ⟨false, false, true, false, false⟩ 400 17, 1), (.value true none 0, 2)]
+    = ⟨.raised ⟨.apiOther, 1⟩, [.call, .sleep (1/2), .call]⟩ := by decide +kernel
+-- an object that is both an API error (404) and a connection time-out: the API clause comes first, not retried
+example : (retryRaw ⟨false, none, some 2, none, none, none⟩
+    [(.exc ⟨false, false, true, true, true⟩ 404 0, 0), (.value true none 0, 1)]).res = .raised ⟨.apiOther, 0⟩ := by decide +kernel
+example : Retryable ⟨3, false, true, 1/2⟩ (Raw.exc ⟨false, false, true, false, false⟩ 408 5).kind :=
+  (raw_exception_retryable_iff _ _ _ _).2 ⟨rfl, Or.inr (Or.inr (Or.inl ⟨rfl, rfl⟩))⟩
+example : (Raw.value true (some false) 4).kind = .dictFail ∧ (Raw.value true none 4).kind = .dictOk ∧ (Raw.value false (some false) 4).kind = .nonDict := by decide
 
 /-! ### historical witness (labelled as such): the behaviour before the fix 9eaa174
 
